@@ -33,7 +33,7 @@ def floors(tier):
             "kind=empty": 200, "kind=random": 200, "id=undoc-id": 100, "id=unknown-class": 100,
             "mode=SETPOLL": 300, "len>=256": 10, "after-checksum-twin": 300, "cfgval-items": 60, "long-zero-state": 40, "size~2^k": 300,
             "byte-sweep": 100000, "special-tail": 5000,
-            "twin=crc32": 80, "twin=adler32": 80}
+            "twin=crc32": 80, "twin=adler32": 80, "every-length": 10000}
 
 
 def plan(tier, seed):
@@ -45,6 +45,9 @@ def plan(tier, seed):
     for i in range(nsweep):
         specs.append({"what": "sweep", "part": i, "of": nsweep})
     specs.append({"what": "race", "suites": ['parse']})
+    # every payload length: all of 0..8192 and a seeded sample above in quick, all 65536 in thorough
+    for i in range(12):
+        specs.append({"what": "lengths", "part": i, "of": 12})
     return specs
 
 
@@ -146,6 +149,29 @@ def run_shard(spec, ctx, acc):
         )
         core.hyp_search(acc, odd, check, seed=core.derive(ctx["seed"], PROP, "odd", spec["name"]),
                         max_examples=120 if tier == "quick" else 3000, known=known, rounds=2)
+        return
+    if spec["what"] == "lengths":
+        import hashlib
+
+        part, of = spec["part"], spec["of"]
+        stream = hashlib.shake_256(b"C01 lengths").digest(65535 + 64)
+        if tier == "quick":
+            rnd = hashlib.shake_256(b"len" + str(ctx["seed"]).encode()).digest(2 * 2500)
+            lens = list(range(0, 8193)) + sorted({8193 + int.from_bytes(rnd[2 * j:2 * j + 2], "big") % (65535 - 8192)
+                                                  for j in range(2500)})
+        else:
+            lens = list(range(0, 65536))
+        for n in lens:
+            if n % of != part:
+                continue
+            case = dict(_mk((b"\x04\x02", b"\x77\x01")[n % 2], stream[n % 61:n % 61 + n], 0, 1, "long" if n > 255 else "random",
+                            "defined"), light=bool(n % 64), validate=1)
+            o = check(case)
+            o.classes = list(o.classes) + ["every-length"]
+            o.dig = None
+            o.sample = None
+            if core.handle(acc, o, case, known) and len(acc.violations) >= core.MAX_VIOL_PER_SHARD:
+                return
         return
     # enumerated sweep over class/ID pairs
     part, of = spec["part"], spec["of"]
